@@ -10,6 +10,7 @@ import GoatProofs.Lemmas.C10NDFull
 import GoatProofs.Lemmas.C10Frame
 import GoatProofs.Lemmas.C10Universe
 import GoatProofs.Lemmas.C10ClaimsRT
+import GoatProofs.Lemmas.C10F64Arm
 /-
 C10 — "Registered claims and custom claims survive a trip through the library unchanged …
 Numeric dates preserve instants to the nanosecond over the whole supported range, and a value that
@@ -80,6 +81,37 @@ theorem decodeUint_ok_exact (bits : Nat) (text : String) (n : Nat) (h : decodeUi
       simp only [Outcome.ok.injEq] at h
       subst h
       exact ⟨hj, by simpa using ho⟩
+
+open GoatProofs.Lemmas.C10F64Arm in
+/-- **overflow_is_error (caller-built float64 into signed)** — the float64 arm of `decode`
+    (`Claims.Raw` built by the caller; `Parse` never produces a float64): for every float64 value —
+    NaN, ±Inf, ±0, denormal, any `±m·2^e` — and every signed width, the value is accepted iff it is
+    an integer within the destination range, and then the stored value is exactly that integer; in
+    particular 2^63 into int64 is an error (the conversion `int64(i)` is modelled with its amd64
+    out-of-range result, so the strictness of `i >= 1<<63` is what the proof uses). -/
+theorem overflow_is_error_float64_signed (bits : Nat) (hb : 1 ≤ bits ∧ bits ≤ 64) (x : F64) :
+    decodeF64Int bits x =
+      match intValue x with
+      | some i => if -(2 ^ (bits - 1) : Int) ≤ i ∧ i ≤ (2 ^ (bits - 1) : Int) - 1 then .ok i else .err "overflow"
+      | none => .err "overflow" :=
+  decodeF64Int_spec bits hb x
+
+open GoatProofs.Lemmas.C10F64Arm in
+/-- **overflow_is_error (caller-built float64 into unsigned)** — accepted iff an integer in
+    `[0, 2^bits)`; 2^64 into uint64, negative values and fractions are errors; −0 is 0. -/
+theorem overflow_is_error_float64_unsigned (bits : Nat) (hb : bits ≤ 64) (x : F64) :
+    decodeF64Uint bits x =
+      match intValue x with
+      | some i => if 0 ≤ i ∧ i < (2 ^ bits : Int) then .ok i.toNat else .err "overflow"
+      | none => .err "overflow" :=
+  decodeF64Uint_spec bits hb x
+
+-- 2^63 = 2^52·2^11 and 2^64 as float64 values; -2^63; 1.5; -0
+example : decodeF64Int 64 (.fin false (2 ^ 52) 11) = .err "overflow" ∧
+    decodeF64Int 64 (.fin true (2 ^ 52) 11) = .ok (-9223372036854775808) ∧
+    decodeF64Uint 64 (.fin false (2 ^ 52) 12) = .err "overflow" ∧
+    decodeF64Int 8 (.fin false 3 (-1)) = .err "overflow" ∧ decodeF64Uint 8 (.fin true 0 0) = .ok 0 ∧
+    decodeF64Int 8 .nan = .err "overflow" := ⟨rfl, rfl, rfl, rfl, rfl, rfl⟩
 
 -- non-vacuity / boundary instances (kernel evaluation)
 example : decodeInt 8 "127" = .ok 127 ∧ decodeInt 8 "128" = .err "overflow" ∧ decodeInt 8 "-128" = .ok (-128) ∧
